@@ -990,6 +990,12 @@ func runCache(tier string, seed int64, model string, replay string) *corr.Result
 	r := rand.New(rand.NewSource(seed))
 	var mu sync.Mutex
 
+	if strings.HasPrefix(replay, "clock ") {
+		n := runClockLane(res, r, model, 0, strings.TrimPrefix(replay, "clock "))
+		res.Evaluations, res.DistinctNontrivial = n, n
+		res.Rule = "replay of one clock-controlled history"
+		return res
+	}
 	quick := tier != "thorough"
 	nHist, nTrim, nParseRandom, maxOps := 3000, 2000, 1500, 40
 	contents := []string{"x-", "x41", "x4142", "g70000.3"}
@@ -1229,6 +1235,16 @@ func runCache(tier string, seed int64, model string, replay string) *corr.Result
 			}
 			res.Samples = append(res.Samples, map[string]string{"case": l, "model": m})
 		}
+	}
+	if replay == "" {
+		nClock := 600
+		if !quick {
+			nClock = 20000
+		}
+		n := runClockLane(res, r, model, nClock, "")
+		res.Evaluations += n
+		res.DistinctNontrivial += n
+		res.Rule += "; plus clock-controlled histories (scratch copy of the package with an exported SetNow, same virtual time for model and implementation): exact comparison of results, files and mtimes at every time boundary (±1 ns), and the statement's rules evaluated on virtual time"
 	}
 	res.Extra["generator"] = fmt.Sprintf("%d histories (≤%d ops, %d ids × contents %v), %d trim cases, %d index-entry strings + digests", nHist, maxOps, nIDs, contents, nTrim, nFixed)
 	return res
